@@ -32,7 +32,8 @@ def bodies(dec_prefixes, seconds):
 
 FULL = bodies([(), ("@d1",), ("@d2",), ("@d1", "@d2"), ("@d2", "@d1"), ("@d1", "@d1")], ("a", "b", "c", "x", "-f"))
 SMALL = bodies([(), ("@d1",)], ("a", "b", "x"))
-QUERIES = [[n] + u for n in NAMES for u in ([], ["u1"], ["u1", "u2"])]
+# user arguments that would change under a second expansion or re-splitting
+QUERIES = [[n] + u for n in NAMES for u in ([], ["~"], ["$VERIFVAR", "~/x y"])]
 
 
 def table_scenario(tab, order, form="list", history=None):
